@@ -13,16 +13,26 @@
 using namespace es;
 static vf::Harness* H;
 
-struct Shape { const char* name; std::vector<uint64_t> naxes; std::vector<uint32_t> order; int naux; };
-static const Shape SHAPES[] = {
+struct Shape { std::string name; std::vector<uint64_t> naxes; std::vector<uint32_t> order; int naux; };
+static const int NBASE = 6;    // shapes that also get crash-byte and conformance spaces
+// The primary header holds 36 cards per 2880-byte block. Whether a card written late lands in the last free slot, needs a new
+// block, or (written after the data) forces cfitsio to shift data blocks depends on the fill level of the header, i.e. on the
+// number of auxiliary keys modulo 36: the "fill" shapes sweep EVERY fill level for a table larger than cfitsio's buffer pool.
+static std::vector<Shape> make_shapes() {
+  std::vector<Shape> S = {
     {"1d-6blocks", {40}, {2}, 0},
     {"2d-9blocks-40aux", {9, 7}, {2, 3}, 40},
     {"3d-11blocks", {12, 11, 10}, {1, 2, 3}, 3},
     {"4d-40blocks", {8, 9, 10, 26}, {2, 2, 1, 0}, 0},
     {"2d-63blocks", {200, 201}, {2, 3}, 1},
     {"5d-300blocks", {8, 9, 10, 11, 26}, {2, 1, 2, 0, 1}, 40},
-};
-static const int NSHAPES = 6;
+  };
+  for (int k = 1; k <= 36; k++) S.push_back({vf::fmt("4d-66blocks-fill%02d", k), {8, 9, 10, 46}, {2, 2, 1, 0}, k});
+  return S;
+}
+static const std::vector<Shape> SHAPES = make_shapes();
+static const int NSHAPES = NBASE;
+#define SN(si) (SHAPES[si].name.c_str())
 
 struct Ctx {
   std::unique_ptr<Table> t;
@@ -92,25 +102,25 @@ static void run_fault(int si, uint64_t idx) {
   bool applicable = (op.kind == VFS_WRITE) || (fk == 0 && (op.kind == VFS_FLUSH || op.kind == VFS_CLOSE || op.kind == VFS_CREATE || op.kind == VFS_TRUNCATE || op.kind == VFS_READ));
   if (!applicable) { H->count("fault_kind_not_applicable_to_op"); return; }
   std::string cls = vf::fmt("%s:%s", FK[fk], opname(op.kind));
-  H->hint(std::string(SHAPES[si].name) + ":" + cls);
+  H->hint(std::string(SN(si)) + ":" + cls);
   vfs_reset(); vfs_plan(k, mode, sl);
   bool threw = false;
   bool viaC = (k % 3 == 1);
   if (viaC) { struct splinetable st; st.data = c.t.get(); threw = writesplinefitstable("vfs://t", &st) != 0; }
   else { try { c.t->write_fits("vfs://t"); } catch (std::exception&) { threw = true; } }
   H->count("evaluations");
-  if (vfs_is_open()) H->violation("file-left-open-after-write:" + cls, SHAPES[si].name);
-  if (!vfs_fault_fired()) { H->violation("harness:planned-fault-did-not-fire", vf::fmt("%s op %d", SHAPES[si].name, k)); return; }
+  if (vfs_is_open()) H->violation("file-left-open-after-write:" + cls, SN(si));
+  if (!vfs_fault_fired()) { H->violation("harness:planned-fault-did-not-fire", vf::fmt("%s op %d", SN(si), k)); return; }
   H->count(threw ? "faults_reported" : "faults_survived_silently");
-  H->cls(std::string(SHAPES[si].name) + "|" + cls + "|" + (threw ? "reported" : "silent"));
+  H->cls(std::string(SN(si)) + "|" + cls + "|" + (threw ? "reported" : "silent"));
   if (!threw) {
     const unsigned char* p; size_t n = vfs_image(&p);
     Load l = (n == c.clean.size() && memcmp(p, c.clean.data(), n) == 0) ? EQUAL : load_mem(*c.t, p, n, true);
     if (l != EQUAL)
       H->violation(std::string(viaC ? "C-wrapper-" : "") + "success-reported-but-file-incomplete:" + cls,
-                   vf::fmt("[%s] fault at op %d (%s off=%lld len=%ld): write returned normally, file on disk %s (size %zu of %zu)", SHAPES[si].name, k, opname(op.kind), op.off, op.len, l == REJECTED ? "is rejected by the reader" : "loads as a DIFFERENT table", n, c.clean.size()));
+                   vf::fmt("[%s] fault at op %d (%s off=%lld len=%ld): write returned normally, file on disk %s (size %zu of %zu)", SN(si), k, opname(op.kind), op.off, op.len, l == REJECTED ? "is rejected by the reader" : "loads as a DIFFERENT table", n, c.clean.size()));
   }
-  if (H->want_sample()) H->sample(vf::fmt("{\"shape\":\"%s\",\"fault\":\"%s\",\"op_index\":%d,\"op\":\"%s\",\"reported\":%s}", SHAPES[si].name, FK[fk], k, opname(op.kind), threw ? "true" : "false"));
+  if (H->want_sample()) H->sample(vf::fmt("{\"shape\":\"%s\",\"fault\":\"%s\",\"op_index\":%d,\"op\":\"%s\",\"reported\":%s}", SN(si), FK[fk], k, opname(op.kind), threw ? "true" : "false"));
 }
 
 // ---------------------------------------------------------------- crash points
@@ -136,7 +146,7 @@ static void judge_image(const Ctx& c, int si, const std::vector<unsigned char>& 
   Load b = load_disk(*c.t, img.data(), img.size());
   H->count("evaluations", 2);
   H->count(a == EQUAL ? "images_accepted_equal" : (a == REJECTED ? "images_rejected" : "images_different"));
-  H->cls(std::string(SHAPES[si].name) + "|" + cls + "|" + (a == EQUAL ? "equal" : a == REJECTED ? "rejected" : "different"));
+  H->cls(std::string(SN(si)) + "|" + cls + "|" + (a == EQUAL ? "equal" : a == REJECTED ? "rejected" : "different"));
   if (a == DIFFERENT) H->violation("crash-image-loads-as-different-table:mem-reader:" + cls, where);
   if (b == DIFFERENT) H->violation("crash-image-loads-as-different-table:disk-reader:" + cls, where);
 }
@@ -148,9 +158,9 @@ static void run_crash_op(int si, uint64_t k) {
   Ctx& c = ctx(si);
   std::vector<unsigned char> img; image_at(c, (int)k, 0, img);
   std::string cls = k < c.log.size() ? std::string("before-") + opname(c.log[k].kind) + (c.log[k].kind == VFS_WRITE ? ":" + region_of(c, c.log[k].off) : "") : "after-last-op";
-  H->hint(std::string(SHAPES[si].name) + ":crash-" + cls);
-  judge_image(c, si, img, vf::fmt("[%s] crash after %llu of %zu driver operations (image %zu bytes of %zu)", SHAPES[si].name, (unsigned long long)k, c.log.size(), img.size(), c.clean.size()), cls);
-  if (H->want_sample()) H->sample(vf::fmt("{\"shape\":\"%s\",\"crash_after_ops\":%llu,\"image_bytes\":%zu}", SHAPES[si].name, (unsigned long long)k, img.size()));
+  H->hint(std::string(SN(si)) + ":crash-" + cls);
+  judge_image(c, si, img, vf::fmt("[%s] crash after %llu of %zu driver operations (image %zu bytes of %zu)", SN(si), (unsigned long long)k, c.log.size(), img.size(), c.clean.size()), cls);
+  if (H->want_sample()) H->sample(vf::fmt("{\"shape\":\"%s\",\"crash_after_ops\":%llu,\"image_bytes\":%zu}", SN(si), (unsigned long long)k, img.size()));
 }
 // byte-granular torn writes: the list of (op, partial) pairs of a shape
 static std::vector<std::pair<int, long>>& torn_points(int si, bool every_byte) {
@@ -170,8 +180,8 @@ static void run_crash_byte(int si, bool every_byte, uint64_t idx) {
   auto& tp = torn_points(si, every_byte)[idx];
   std::vector<unsigned char> img; image_at(c, tp.first, tp.second, img);
   std::string cls = "torn-write:" + region_of(c, c.log[tp.first].off + tp.second);
-  H->hint(std::string(SHAPES[si].name) + ":" + cls);
-  judge_image(c, si, img, vf::fmt("[%s] crash inside write op %d (off=%lld len=%ld) after %ld bytes", SHAPES[si].name, tp.first, c.log[tp.first].off, c.log[tp.first].len, tp.second), cls);
+  H->hint(std::string(SN(si)) + ":" + cls);
+  judge_image(c, si, img, vf::fmt("[%s] crash inside write op %d (off=%lld len=%ld) after %ld bytes", SN(si), tp.first, c.log[tp.first].off, c.log[tp.first].len, tp.second), cls);
 }
 
 // ---------------------------------------------------------------- binding the virtual disk to reality
@@ -180,27 +190,28 @@ static void run_conf(uint64_t idx) {
   int si = idx % NSHAPES; int kind = idx / NSHAPES;
   Ctx& c = ctx(si);
   std::string path = vf::fmt("c08conf_%d.fits", (int)getpid());
-  H->hint(vf::fmt("%s:conformance-%d", SHAPES[si].name, kind));
+  H->hint(vf::fmt("%s:conformance-%d", SN(si), kind));
   if (kind == 0) {  // no fault: virtual image == real file == memory file
     c.t->write_fits(path); fr::Bytes real = slurp(path); remove(path.c_str());
     auto mb = c.t->write_fits_mem(); fr::Bytes mem((unsigned char*)mb.first, (unsigned char*)mb.first + mb.second); free(mb.first);
-    if (real != c.clean) H->violation("harness:virtual-disk-differs-from-real-file", SHAPES[si].name);
-    if (mem != c.clean) H->violation("harness:virtual-disk-differs-from-memory-file", SHAPES[si].name);
-    H->count("traces_validated_against_impl"); H->cls(std::string("conformance-identical|") + SHAPES[si].name);
+    if (real != c.clean) H->violation("harness:virtual-disk-differs-from-real-file", SN(si));
+    if (mem != c.clean) H->violation("harness:virtual-disk-differs-from-memory-file", SN(si));
+    H->count("traces_validated_against_impl"); H->cls(std::string("conformance-identical|") + SN(si));
     return;
   }
   if (kind == 1) return;  // (writing to /dev/full is NOT done: write_fits clobbers its target, which would delete the device node)
   if (kind == 2) {  // a directory / missing directory as target
     bool threw = false; try { c.t->write_fits("."); } catch (std::exception&) { threw = true; }
-    if (!threw) H->violation("success-reported-writing-to-a-directory", SHAPES[si].name);
+    if (!threw) H->violation("success-reported-writing-to-a-directory", SN(si));
     threw = false; try { c.t->write_fits("no/such/dir/x.fits"); } catch (std::exception&) { threw = true; }
-    if (!threw) H->violation("success-reported-writing-to-a-missing-directory", SHAPES[si].name);
-    H->count("traces_validated_against_impl"); H->cls(std::string("conformance-dir|") + SHAPES[si].name);
+    if (!threw) H->violation("success-reported-writing-to-a-missing-directory", SN(si));
+    H->count("traces_validated_against_impl"); H->cls(std::string("conformance-dir|") + SN(si));
     return;
   }
   // kind >= 3: RLIMIT_FSIZE = (kind-2) * step bytes in a forked child with SIGXFSZ ignored
+  // kind 3..14: twelve limits spread over the file; kind 15..30: sixteen limits inside the last ~4.5 KB (the final stdio buffer)
   size_t total = c.clean.size(); int nsteps = 12; size_t step = std::max<size_t>(1024, total / nsteps / 1024 * 1024);
-  size_t limit = (size_t)(kind - 2) * step - 512;
+  size_t limit = kind <= 14 ? (size_t)(kind - 2) * step - 512 : total - 1 - (size_t)(kind - 15) * 300;
   if (limit >= total) { H->count("rlimit_above_file_size"); return; }
   fflush(nullptr);
   pid_t pid = fork();
@@ -214,12 +225,16 @@ static void run_conf(uint64_t idx) {
   bool reported = WIFEXITED(st) && WEXITSTATUS(st) == 1;
   fr::Bytes onDisk = slurp(path); remove(path.c_str());
   H->count("traces_validated_against_impl");
-  H->cls(std::string("conformance-rlimit|") + SHAPES[si].name + (reported ? "|reported" : "|silent"));
-  if (!(WIFEXITED(st))) { H->violation("write-crashed-under-file-size-limit", SHAPES[si].name); return; }
+  H->cls(std::string("conformance-rlimit|") + SN(si) + (reported ? "|reported" : "|silent"));
+  if (!(WIFEXITED(st))) { H->violation("write-crashed-under-file-size-limit", SN(si)); return; }
+  // stdio hands data to the kernel in units of its buffer (st_blksize): a limit at or above the last buffer boundary below the
+  // file size loses only the final, partial buffer, which is written by the fflush inside cfitsio's close path
+  size_t blk = 4096; { struct stat sb; if (stat(".", &sb) == 0 && sb.st_blksize > 0) blk = sb.st_blksize; }
+  bool only_last = limit >= total / blk * blk;
   if (!reported && onDisk != c.clean)
-    H->violation("success-reported-but-file-incomplete:real-driver:RLIMIT_FSIZE", vf::fmt("[%s] limit %zu of %zu bytes: write_fits returned normally, %zu bytes on disk", SHAPES[si].name, limit, total, onDisk.size()));
+    H->violation(std::string("success-reported-but-file-incomplete:real-driver:RLIMIT_FSIZE") + (only_last ? ":only-the-final-stdio-buffer-lost" : ""), vf::fmt("[%s] limit %zu of %zu bytes: write_fits returned normally, %zu bytes on disk", SN(si), limit, total, onDisk.size()));
   // the partial file must not load as a different table
-  if (onDisk != c.clean && !onDisk.empty()) { Load l = load_mem(*c.t, onDisk.data(), onDisk.size()); if (l == DIFFERENT) H->violation("crash-image-loads-as-different-table:real-partial-file", SHAPES[si].name); }
+  if (onDisk != c.clean && !onDisk.empty()) { Load l = load_mem(*c.t, onDisk.data(), onDisk.size()); if (l == DIFFERENT) H->violation("crash-image-loads-as-different-table:real-partial-file", SN(si)); }
 }
 
 int main(int argc, char** argv) {
@@ -238,17 +253,17 @@ int main(int argc, char** argv) {
   vfs_register();
   if (getenv("C08_DUMP")) { int si = atoi(getenv("C08_DUMP")); auto& L = ctx(si).log; for (size_t i = 0; i < L.size(); i++) printf("%zu %s off=%lld len=%ld\n", i, opname(L[i].kind), L[i].off, L[i].len); return 0; }
   bool T = h.thorough;
-  h.add_space("conformance", NSHAPES * 15, run_conf);
-  for (int si = 0; si < NSHAPES; si++) {
+  h.add_space("conformance", NSHAPES * 31, run_conf);
+  for (int si = 0; si < (int)SHAPES.size(); si++) {
     // (all six shapes in both tiers: the 300-block shape with 40 keys is the one whose header overflows after data exist)
     size_t L = ctx(si).log.size();
-    h.add_space(vf::fmt("fault-%s", SHAPES[si].name), L * 6, [si](uint64_t i) { run_fault(si, i); });
-    h.add_space(vf::fmt("crash-op-%s", SHAPES[si].name), L + 1, [si](uint64_t i) { run_crash_op(si, i); });
+    h.add_space(vf::fmt("fault-%s", SN(si)), L * 6, [si](uint64_t i) { run_fault(si, i); });
+    h.add_space(vf::fmt("crash-op-%s", SN(si)), L + 1, [si](uint64_t i) { run_crash_op(si, i); });
   }
   for (int si = 0; si < NSHAPES; si++) {
     bool every = (si == 0) || (T && si <= 2);
     if (!T && !(si == 0 || si == 4)) continue;
-    h.add_space(vf::fmt("crash-byte-%s", SHAPES[si].name), torn_points(si, every).size(), [si, every](uint64_t i) { run_crash_byte(si, every, i); });
+    h.add_space(vf::fmt("crash-byte-%s", SN(si)), torn_points(si, every).size(), [si, every](uint64_t i) { run_crash_byte(si, every, i); });
   }
   return h.main();
 }
